@@ -93,6 +93,15 @@ func (ex *Exec) lockOp(fr *Frame, st *State, key string, args []Val, pos token.P
 	if !ok || len(args) == 0 {
 		return false
 	}
+	if (op == "Lock" || op == "RLock") && fr.depth == 0 {
+		// ghosts declared "resetonlock" (Bool) forget what they recorded when the function under proof itself (not a
+		// helper it calls, which locks its own objects) takes a mutex: "x has been re-read since the mutex was taken"
+		for name, g := range ex.lib.Ghosts {
+			if g.ResetOnLock && tagActive(g.Tags, ex.prop) {
+				st.ghost[name] = TFalse
+			}
+		}
+	}
 	p, ok := args[0].(*Ptr)
 	if !ok {
 		return true
